@@ -201,20 +201,20 @@ def run_c07(ctx, replay=None):
     return finish(ctx, "C07")
 
 
-def run_rpc_lists(ctx):
-    """C13 through GroupMetadataList / GroupMessageList of an in-process service"""
+def run_rpc_lists(ctx, prop="C13"):
+    """C13 through GroupMetadataList / GroupMessageList of an in-process service (prop="C19": only "no panic")"""
     ov = ctx.overlay({PKG: ["vf_rpclist_verif_test.go"]})
     sizes = [(0, 0), (2, 3)] if ctx.tier == "quick" else [(0, 0), (1, 1), (3, 4), (5, 6)]
     scripts = [{"id": i, "cfg": {"nmeta": a, "nmsg": b}, "steps": []} for i, (a, b) in enumerate(sizes)]
     events, _ = vf.run_driver(ctx, PKG, "^TestVerifRPCList$", ov, scripts, "rpclist", timeout=2400)
-    acc, rejects = vf.validate_blocks(ctx, MON, events, "rpclist", consts={"Prop": '"C13"'})
+    acc, rejects = vf.validate_blocks(ctx, MON, events, "rpclist", consts={"Prop": '"%s"' % prop})
     n = sum(1 for e in events if e.get("ev") in ("rpclist", "rpcparams"))
     ctx.evaluations += n
     ctx.distinct_nontrivial += sum(1 for e in events if e.get("ev") == "rpclist" and e.get("ok") and len(e.get("out", [])) >= 2)
     ctx.extra["rpc_listings"] = n
     for rj in rejects:
         line = rj["info"].get("line", {})
-        ctx.violation("RPC listing breaks C13: %s" % json.dumps(line, sort_keys=True)[:400],
+        ctx.violation("RPC listing breaks %s: %s" % (prop, json.dumps(line, sort_keys=True)[:400]),
                       {"script": scripts[rj["id"]], "rejected_line": line, "family": "rpclist"})
 
 
